@@ -190,8 +190,8 @@ class SMUserList(UserList, ABC):
         elif isinstance(arg, (list, tuple)):
             # it's a list of things
             if len(arg) == 0:
-                # a list of nothing, an instance with no values
-                self.data = []
+                # nothing to construct from (use Empty() for an instance with no values)
+                raise ValueError('empty list passed to constructor')
 
             elif isinstance(arg[0], np.ndarray):
                 # possibly a list of numpy arrays
